@@ -103,7 +103,7 @@ impl Prop for C16 {
     fn runs(&self, tier: Tier) -> u64 {
         match tier {
             Tier::Quick => 250_000,
-            Tier::Thorough => 5_000_000,
+            Tier::Thorough => 1_200_000,
             Tier::Tiny => 50,
         }
     }
@@ -126,8 +126,9 @@ impl Prop for C16 {
         v.into_iter().map(String::from).collect()
     }
 
-    fn gen(&self, seed: u64, run: u64, _tier: Tier) -> Trace {
+    fn gen(&self, seed: u64, run: u64, tier: Tier) -> Trace {
         let mut rng = Rng::new(mix(seed, "C16", run));
+        let deep = tier == Tier::Thorough && run % 4 == 3;
         let mut trng = Rng::new(mix(seed, "C16-tree", run / 64));
         let tree = gen_tree(&mut trng, true, 2, 2, 1);
         let controllers = *rng.pick(&[1u8, 1, 2, 3]);
@@ -152,7 +153,7 @@ impl Prop for C16 {
             *rng.pick(&[0u32, 1, 2]),  // ok app msg (query -> output => MAV)
             *rng.pick(&[0u32, 1]),     // ese/sre type & range errors
         ];
-        let nmax = *rng.pick(&[15usize, 40, 80]);
+        let nmax = if deep { 400 } else { *rng.pick(&[15usize, 40, 80]) };
         let n = rng.urange(10, nmax);
         let mut g = HistGen {
             rng: &mut rng,
